@@ -167,7 +167,53 @@ def k_assign_history(ctx, w, seed):
             return
 
 
-KINDS = {"field": k_field, "pair": k_pair, "refuse": k_refuse, "conv": k_conv, "assign_history": k_assign_history}
+def k_handed_over(ctx, w1, v1, w2, v2, seed):
+    """Field objects handed to the components that take them (PDU configuration / header, transaction id, reserved messages)
+    remain the caller's objects: whatever those components do or refuse, each field still shows its own (value, width) in every view."""
+    import random
+    U = _imp()
+    from spacepackets.cfdp.conf import PduConfig
+    from spacepackets.cfdp.defs import TransactionId, CrcFlag, LargeFileFlag, TransmissionMode, PduType, SegmentMetadataFlag
+    from spacepackets.cfdp.pdu.header import PduHeader
+    from spacepackets.cfdp.tlv import OriginatingTransactionId, EntityIdTlv
+    r = random.Random(seed)
+    case = {"k": "handed_over", "w1": w1, "v1": v1, "w2": w2, "v2": v2, "seed": seed}
+    ctx.case("handed_over/" + ("same_width" if w1 == w2 else "different_widths"), (w1, v1, w2, v2, seed), sample=case)
+    a, b, c = U.ByteFieldGenerator.from_int(w1, v1), U.ByteFieldGenerator.from_int(w2, v2), U.ByteFieldGenerator.from_int(w1, v1 ^ 1 if w1 else 0)
+    uses = []
+
+    def use(name, fn):
+        ok, res = attempt(fn)
+        uses.append(name + ("" if ok else f":{type(res).__name__}"))
+        return res if ok else None
+
+    conf = use("PduConfig", lambda: PduConfig(source_entity_id=a, dest_entity_id=c, transaction_seq_num=b, trans_mode=TransmissionMode.ACKNOWLEDGED,
+                                              file_flag=LargeFileFlag.NORMAL, crc_flag=CrcFlag.NO_CRC))
+    if conf is not None:
+        h = use("PduHeader", lambda: PduHeader(PduType.FILE_DATA, SegmentMetadataFlag.NOT_PRESENT, 5, conf))
+        if h is not None:
+            use("PduHeader.pack", h.pack)
+            use("set_entity_ids(a,b)", lambda: h.set_entity_ids(a, b))          # refused when the widths differ
+            use("set_entity_ids(b,a)", lambda: h.set_entity_ids(b, a))
+            use("transaction_seq_num=a", lambda: setattr(h, "transaction_seq_num", a))
+            use("PduHeader.pack", h.pack)
+    tid = use("TransactionId", lambda: TransactionId(a, b))
+    if tid is not None:
+        use("OriginatingTransactionId.pack", lambda: OriginatingTransactionId(tid).pack())
+        use("hash(TransactionId)", lambda: hash(tid))
+    use("EntityIdTlv", lambda: EntityIdTlv(a.as_bytes).pack())
+    for name, f, w, v in (("first", a, w1, v1), ("second", b, w2, v2)):
+        views = (bytes(f.as_bytes), int(f), len(f), f.byte_len, f.value, f.hex_str)
+        exp = (v.to_bytes(w, "big"), v, w, w, v, _hex_str(v, w))
+        fresh = U.UnsignedByteField(v, w)
+        ok = ctx.check("field.handed_over", views == exp, "views_changed_after_the_field_was_handed_to_another_component", "same_width" if w1 == w2 else "different_widths",
+                       dict(case, which=name), uses=uses, observed=repr(views), expected=repr(exp))
+        if ok and w:
+            ctx.check("field.handed_over", f == fresh and hash(f) == hash(fresh) and U.UnsignedByteField.from_bytes(bytes(f.as_bytes)) == f, "no_longer_equal_to_a_fresh_field",
+                      "same_width" if w1 == w2 else "different_widths", dict(case, which=name), uses=uses)
+
+
+KINDS = {"handed_over": k_handed_over, "field": k_field, "pair": k_pair, "refuse": k_refuse, "conv": k_conv, "assign_history": k_assign_history}
 ROUTES = ("ctor", "gen_int", "gen_bytes", "from_bytes", "subclass", "assign_int", "assign_bytes")
 
 
@@ -248,6 +294,12 @@ def run(ctx):
             v = rand_uint(r, bits)
             k_conv(ctx, n, v, False)
             k_conv(ctx, n, v - (1 << (bits - 1)), True)
+    j = 0
+    for w1 in (1, 2, 4, 8):
+        for w2 in (1, 2, 4, 8):
+            for _ in range(ctx.n(12, 1200)):
+                j += 1
+                k_handed_over(ctx, w1, rand_uint(r, 8 * w1), w2, rand_uint(r, 8 * w2), ctx.seed * 1_000_003 + ctx.shard[0] * 100_003 + j)
     for n in (3, 5, 9, -1):
         for signed in (True, False):
             ok, res = attempt(U.IntByteConversion.to_signed if signed else U.IntByteConversion.to_unsigned, n, 1)
@@ -255,6 +307,7 @@ def run(ctx):
 
 
 def conclude(ctx):
+    ctx.require(ctx.classes.get("handed_over/different_widths", 0) > 0 and ctx.classes.get("handed_over/same_width", 0) > 0, "handed-over field classes empty")
     for w in (0, 1, 2, 4, 8):
         ctx.require(any(k.startswith(f"field/w={w}/") for k in ctx.classes), f"width {w} not exercised")
     for route in ROUTES:
